@@ -1,7 +1,7 @@
 """Per-check metadata from which bin/mkmanifest writes MANIFEST.json."""
 
 HOOK_COMMITS = ["3c48510", "e2e1b97", "035de92", "8d2dfbb"]
-FIX_COMMITS = ["4036763", "5f5d3b9", "e0b60a8", "6cf1e6b"]
+FIX_COMMITS = ["4036763", "5f5d3b9", "e0b60a8", "6cf1e6b", "6eae605", "8378524"]
 
 NOTES = ("One engine: TLA+ specifications under spec/, TLC for the design, Go harness (harness/) for conformance. "
          "Exit 2 (INFRA-ERROR) is never a verdict. known_findings.json lists recorded genuine defects.")
@@ -36,5 +36,37 @@ CHECKS = {
                 "3/4-connection schedules is forced on a real server through the verif gates; PrewriteTrace validates the recorded "
                 "append/flush/write events: at each socket write the command's bytes are in the file on disk.",
         "note": "Gates park connections only outside the server lock; background flusher runs on its own clock (can hide, never cause, a failure).",
+    },
+    "C04": {
+        "level": "fault_enumeration",
+        "technique": "TLA+ Torn spec (loadAOF parse loop) model-checked; byte-offset fault enumeration of real logs with expected states from the TLA+ AOF spec",
+        "text": "TLC checks the recovery invariants of the loadAOF loop (chunked reads, NUL skipping, fragment cut, aofsz) for every log shape x "
+                "padding x tear offset in the bound. Logs are produced by the real server from TLC behaviours; for byte offsets of each log "
+                "(quick: all offsets within 3 bytes of a boundary + a stride; thorough: every offset), with and without NUL runs at command "
+                "boundaries, a real server starts on the cut file: dataset = the specification's state after the last complete command, file cut "
+                "back to that boundary, one more acknowledged write survives another restart.",
+        "note": "Expected states from TLC; byte boundaries from the harness' own RESP encoder. NULs inside a command / other corruption out of scope.",
+    },
+    "C11": {
+        "level": "model_checking",
+        "technique": "TLA+ Cursor spec (counting rule of scanWriter/collection); TLC proves the paging theorem exhaustively, generates datasets with every reply+cursor of every SCAN/SEARCH paging run (model->code), and judges recorded paging runs of all five families (code->model)",
+        "text": "TLC checks, for every index length/filter mask/stop position/LIMIT within the bound, that following the cursor of the counting rule (numberIters/hitLimit) yields exactly the unlimited sequence, 0 only at the end, strictly increasing cursors, termination. CursorGen enumerates every collection over a small id universe (and random ones over a larger one) and predicts every reply and cursor value of SCAN (id order, incl. glob.Parse range start) and SEARCH (value order) for MATCH x WHERE/WHEREIN/WHEREEVAL x ASC/DESC x LIMIT 1..n+1; real servers (RESP and JSON connections) are paged and compared reply by reply. The same collections plus seeded collections of up to 400 (quick) / 1500 (thorough) objects with churn are paged through SCAN, SEARCH, WITHIN, INTERSECTS, NEARBY; every run and the unlimited reply are judged by TLC (CursorTrace, Cursor!Satisfies).",
+        "note": "On R-tree walks (WITHIN/INTERSECTS/NEARBY) the cursor is opaque: only the statement is demanded. Glob semantics beyond literal/prefix/suffix patterns belongs to C12. SPARSE excluded (server refuses CURSOR/LIMIT with it). checks/c11_selftest.py proves the binding is not vacuous.",
+    },
+    "C15": {
+        "level": "model_checking",
+        "technique": "TLA+ Gates spec; command table extracted from the source; per-command behaviour measured on a real leader; TLC checks the statement on the gate function and emits the (mode x connection state x command x wrapper) matrix, every cell executed on real servers (model->code)",
+        "text": "The command list is parsed at check time from the switch in Server.command, the name tests of handleInputCommand/netServe, the script dispatch tables and core/commands.json (a name without an argument template is an INFRA error). For every (command instance, wrapper) the harness measures on a real leader whether it modifies data, is served, or discloses object data; these tables are constants of Gates.tla. TLC checks that Gates!Gate satisfies the statement for every cell and every allowed outcome, then emits one behaviour per cell with the expected reply classes / unchanged / no-data / authenticated-afterwards. The harness executes each behaviour against real servers (leader, follower of a stalling fake leader, follower of a real leader, READONLY, requirepass with fresh / wrong-password / authenticated connections, protected mode with a loopback and a 192.0.2.2 peer) under 10 wrappers (plain, TIMEOUT, EVAL/EVALRO/EVALNA tile38.call, JSON output, native protocol, HTTP without / with right / with wrong Authorization) and compares reply class, dataset projection + aof_size before/after, marker disclosure, and an authentication probe.",
+        "note": "A command is checked with the argument shapes of harness/gates/templates.go only. Only the first reply of a detaching command is examined. Servers run with DevMode off. TLS and unix-socket peers are not covered.",
+    },
+    "C19": {
+        "level": "model_checking",
+        "technique": "TLA+ Index spec (incremental bookkeeping) model-checked; TLC transition cover of kind-changing histories replayed with an in-package audit and black-box recomputation after every step",
+        "text": "TLC checks BookkeepingExact on the incremental setFill/Delete model for all histories over 2 ids x 24 object values and shows two broken "
+                "bookkeepings are detected. The complete transition cover of kind-changing alphabets (string/point/empty geometry/polygon, deadline, "
+                "fields, rename/drop/hooks) and random behaviours over the full token table are replayed on real servers; after every step the "
+                "in-package audit walks the four indexes, counters, hook registries and group maps, and STATS/SERVER/BOUNDS/KEYS/SCAN/SEARCH/"
+                "WITHIN/INTERSECTS/NEARBY are compared with a recomputation from the retrievable objects.",
+        "note": "Per-geometry points/bounds are calibrated on a server holding only that object; in_memory_size is recomputed in-package only.",
     },
 }
